@@ -44,18 +44,34 @@ def run(tier, seed):
     rep2 = common.load_report(rp2)
     fails += rep2["failures"]
     evals += rep2["evaluations"]
+    # boundary classes of the standard-type conversions (StdValues.tla)
+    r5 = common.tlc("wire", "StdValues", cfg="StdValues.cfg", workers=1, timeout=600)
+    if not r5.ok:
+        raise common.ToolError("StdValues.tla failed:\n" + r5.out[-1500:])
+    std_cases = r5.printed("CASE")
+    cp3 = os.path.join(d, "std_cases.ndjson")
+    common.write_ndjson(cp3, std_cases)
+    rp3 = os.path.join(d, "std_report.json")
+    rc, so, se = common.run_bin("wire_replay", ["std", cp3, rp3], timeout=600)
+    if rc != 0 and not os.path.exists(rp3):
+        raise common.ToolError("wire_replay std failed: " + se[-800:])
+    rep3 = common.load_report(rp3)
+    fails += rep3["failures"]
+    evals += rep3["evaluations"]
     cov = {"states": len(cases), "transitions": evals, "traces_validated_against_impl": rep["evaluations"], "samples": samples + rep2["samples"][:1],
            "evaluations": evals, "distinct_nontrivial": rep["distinct"] + rep2["distinct"],
            "rule": f"canonical part: every sequence of <= {maxlen} entries over 21 entry shapes (singular / repeated varint, fixed32, bytes, nested and repeated "
                    "nested messages incl. inner empty packed chunks, packed chunks of 0/1/2 elements, unknown field, wrong wire types); round trips: "
-                   f"{n} seeded values for each of 12 wire / storage types x {{prost encoding, shuffled field order}}",
+                   f"{n} seeded values for each of 12 wire / storage types x {{prost encoding, shuffled field order}}; std conversions: {len(std_cases)} boundary "
+                   "classes of SocketAddr (incl. IPv4-mapped / -compatible IPv6, also inside a signed NetAddress whose signature must survive), Duration, Utc, BitVec, Rate",
+           "std_classes": {"cases": len(std_cases), "outside_domain_or_unrepresentable": rep3["counters"].get("std_case_outside_the_property_domain", 0) + rep3["counters"].get("std_case_not_representable", 0)},
            "exhaustive": False,
            "not_covered": "'all values of all types': field contents are seeded samples (the repository's own test_encode_random covers the same ground); build-time schema "
                           "restrictions (protobuf_build/canonical.rs) are a compile-time check, not reachable by a run-time trace; RPC and handshake message types are crate-private"}
     common.write_evidence(PROP, tier, seed, "model_checking", cov,
                           ["a TLA+ model has no handle on byte-level fidelity beyond the value classes it enumerates (DESIGN §9)"], time.time() - t0, len(fails))
     common.handle_failures(PROP, fails, "wire_failure")
-    log(f"[C09] ok: {len(cases)} serialisations, {rep2['evaluations']} round trips")
+    log(f"[C09] ok: {len(cases)} serialisations, {rep2['evaluations']} round trips, {len(std_cases)} std boundary classes")
     return 0
 
 
@@ -65,7 +81,16 @@ def replay(path, seed):
     common.cargo_build()
     d = common.outdir(PROP)
     rp = os.path.join(d, "replay_report.json")
-    if c.get("mode") == "canon":
+    if c.get("type") in ("std::net::SocketAddr", "time::Duration", "time::Utc", "BitVec", "limiter::Rate") or c.get("mode") == "std" and "case" not in c:
+        r5 = common.tlc("wire", "StdValues", cfg="StdValues.cfg", workers=1, timeout=600)
+        cp = os.path.join(d, "replay_case.ndjson")
+        common.write_ndjson(cp, r5.printed("CASE"))
+        common.run_bin("wire_replay", ["std", cp, rp])
+    elif c.get("mode") == "std":
+        cp = os.path.join(d, "replay_case.ndjson")
+        common.write_ndjson(cp, [c["case"]])
+        common.run_bin("wire_replay", ["std", cp, rp])
+    elif c.get("mode") == "canon":
         cp = os.path.join(d, "replay_case.ndjson")
         common.write_ndjson(cp, [c["case"]])
         common.run_bin("wire_replay", ["canon", cp, rp])
